@@ -52,8 +52,17 @@ class LogicEval:
         return out
 
     # ---- expression evaluation
+    def _deref(self, e: ast.AST, env, depth=0):
+        while isinstance(e, ast.Name) and isinstance(env.get(e.id), tuple) and len(env[e.id]) == 2 and env[e.id][0] == "expr" and depth < 8:
+            e = env[e.id][1]
+            depth += 1
+        if isinstance(e, ast.Call) and isinstance(e.func, ast.Name) and e.func.id == "bool" and len(e.args) == 1:
+            return self._deref(e.args[0], env, depth + 1)
+        return e
+
     def _bucket(self, e: ast.AST, env) -> Optional[Tuple[str, ...]]:
         """abstract value of an expression denoting a bucket list"""
+        e = self._deref(e, env)
         if isinstance(e, ast.Subscript):
             d = self._diffobj(e.value, env)
             if d is not None:
@@ -70,7 +79,7 @@ class LogicEval:
                 return d.get(k, ())
         if isinstance(e, ast.List) and not e.elts:
             return ()
-        if isinstance(e, ast.Name) and isinstance(env.get(e.id), tuple):
+        if isinstance(e, ast.Name) and isinstance(env.get(e.id), tuple) and not (len(env[e.id]) == 2 and env[e.id][0] == "expr"):
             return env[e.id]
         return None
 
@@ -97,6 +106,7 @@ class LogicEval:
         return None
 
     def _truth(self, e: ast.AST, env) -> bool:
+        e = self._deref(e, env)
         if isinstance(e, ast.BoolOp):
             vals = [self._truth(v, env) for v in e.values]
             return all(vals) if isinstance(e.op, ast.And) else any(vals)
@@ -193,7 +203,9 @@ class LogicEval:
                     if b is not None:
                         env[t.id] = b
                         continue
-                    raise Unknown(f"{fn.name}: unsupported assignment at line {st.lineno}: {norm(st)[:70]}")
+                    # any other local: remember the expression and evaluate it where it is used
+                    env[t.id] = ("expr", v)
+                    continue
                 if isinstance(t, ast.Subscript):
                     d = self._diffobj(t.value, env)
                     if d is not None:
@@ -247,6 +259,7 @@ class LogicEval:
         if not isinstance(v, ast.Tuple) or len(v.elts) != 3:
             return Emission("OTHER", None, None, None, v or fn)
         flag_e, text_e, ch_e = v.elts
+        flag_e, text_e, ch_e = self._deref(flag_e, env), self._deref(text_e, env), self._deref(ch_e, env)
         flag = flag_e.value if isinstance(flag_e, ast.Constant) else None
         # REV: rule["reverse"].format(*key)
         if isinstance(text_e, ast.Call) and isinstance(text_e.func, ast.Attribute) and text_e.func.attr == "format" \
@@ -262,6 +275,11 @@ class LogicEval:
         return Emission("OTHER", flag, None, None, v)
 
     def _item_field(self, e: ast.AST, env, field: str) -> Optional[str]:
+        e = self._deref(e, env)
+        if isinstance(e, ast.Subscript) and isinstance(e.slice, ast.Constant) and e.slice.value == field:
+            inner = self._deref(e.value, env)
+            if inner is not e.value:
+                e = ast.Subscript(value=inner, slice=e.slice, ctx=ast.Load())
         if isinstance(e, ast.Subscript) and isinstance(e.slice, ast.Constant) and e.slice.value == field \
                 and isinstance(e.value, ast.Subscript) and isinstance(e.value.slice, ast.Constant) and e.value.slice.value == 0:
             b = self._bucket(e.value.value, env)
